@@ -3,7 +3,7 @@
    versions are in ElemRefine3.v, the copy frame in ElemRefine6.v). *)
 From Coq Require Import List ZArith Bool Arith Lia.
 From SC Require Import Base.Res Base.PyList Inst.Heap Inst.ClassTable Inst.Model Inst.Canon
-  Inst.Abs Inst.SpecHelpers Inst.ElemProofs Inst.Framed Inst.RefineProofs Inst.CopyProofs Inst.CopyStore
+  Inst.Abs Inst.SpecHelpers Inst.ElemProofs Inst.Framed Inst.RefineProofs Inst.CopyProofs Inst.ElemRefineDep Inst.CopyStore
   Inst.ElemRefine Inst.ElemRefine2 Inst.ElemRefine3 Inst.ElemRefine4 Inst.ElemRefine5 Inst.ElemRefine6.
 Import ListNotations.
 Open Scope nat_scope.
@@ -130,7 +130,7 @@ Section CopyChange.
   Hypothesis Hd : NoDup (map fst d).
   Hypothesis Hdnc : c_dnc k = false.
   Hypothesis Hpc : c_post_copy k = None.
-  Hypothesis Hni : no_inval k.
+  Hypothesis Hni : no_dep k a.
   Hypothesis Hty : a_ty sp = TList ity.
   Hypothesis Hdepth : ty_depth ity < FUEL.
   Hypothesis Hfld : assoc a d = Some (VRef lc).
